@@ -320,8 +320,11 @@ def main(argv):
     if a.replay:
         rp = json.load(open(a.replay))
         cases = [rp["case"]] if "case" in rp else []
-        if not cases:
-            log(f"replay file names a broken obligation only: {rp.get('signature')}")
+        if "numeric_case" in rp and hasattr(mod, "replay"):
+            for f in mod.replay(rp["numeric_case"]) or []:
+                report(f, {"numeric_case": rp["numeric_case"], "oracle_failures": [f]}, True)
+        elif not cases:
+            log(f"replay file names a broken obligation / table row only: {rp.get('signature')} - re-run ./check {pid} to re-check it")
     else:
         corpus = []
         for f in sorted(glob.glob(os.path.join(ROOT, "corpus", pid, "*.json"))):
